@@ -9,6 +9,30 @@ CLAUSES = ('C16',)
 INV = ['C16_FixedPoint']
 
 
+def ws_documents(chk, quick):
+    """well-formed documents written with arbitrary (attaching) whitespace between commands and their arguments, from DocGen"""
+    from harness import docs as D
+    from harness.tlc import from_atoms
+    out = []
+    common = {'MEnvNames': [], 'VerbNames': [], 'Leaves': [], 'Labels': [''], 'ComPool': [], 'ListNames': [], 'MathKinds': []}
+    p = dict(common)
+    p.update({'Budget': 5 if quick else 7, 'Seps': ['', '\n', ' '], 'TextPool': ['\n\n', 'x'], 'MathTextPool': ['x'], 'EnvNames': [], 'CmdNames': ['a'],
+              'MaxSib': 2, 'MaxArgs': 4 if quick else 6, 'MaxDepth': 2})
+    recs, _ = D.generate(chk, 'wsruns', p, ['C02_Structure', 'C09_Conserves'])
+    out += [from_atoms(r['i']) for r in recs]
+    p = dict(common)
+    p.update({'Budget': 7, 'Seps': [''], 'TextPool': ['c', 't'], 'MathTextPool': ['x'], 'EnvNames': [], 'CmdNames': ['a'],
+              'MaxSib': 1, 'MaxArgs': 3, 'MaxDepth': 3})
+    recs, _ = D.generate(chk, 'twinargs', p, ['C02_Structure'])
+    out += [from_atoms(r['i']) for r in recs]
+    p = dict(common)
+    p.update({'Budget': 4 if quick else 5, 'Seps': ['', ' ', '\n', ' \n '], 'TextPool': ['x', ' '], 'MathTextPool': ['x'], 'EnvNames': ['e'], 'CmdNames': ['a', 'bb'],
+              'MathKinds': ['$'], 'ListNames': ['itemize'], 'MaxSib': 2, 'MaxArgs': 2, 'MaxDepth': 3})
+    recs, _ = D.generate(chk, 'wsdocs', p, ['C02_Structure', 'C09_Conserves'])
+    out += [from_atoms(r['i']) for r in recs]
+    return list(dict.fromkeys(out))
+
+
 def run(chk):
     quick = chk.tier == 'quick'
     chk.rule = ('TLC enumerates every source over the token-kind alphabets (<= N words, side conditions as guards), '
@@ -18,7 +42,7 @@ def run(chk):
                 'A case is a source string.')
     S.standard(chk, c08.scopes(quick), INV, CLAUSES,
                're-parsing the serialised text must succeed with identical shape and identical text',
-               extra_sources=c08.extras(chk, quick))
+               extra_sources=c08.extras(chk, quick), sources=ws_documents(chk, quick))
     chk.assumptions += ['side conditions of C08 plus: no bare sizing prefix (\\left, \\big ...) - decided on the reference '
                         'token stream', 'shape = names, argument kinds and contents with adjacent text leaves merged']
 
